@@ -13,4 +13,5 @@ if command -v python3-vt >/dev/null 2>&1; then
   rm -rf "$T"
   echo "setup: table generator reproduces p8_exp, p8_ln, p16_log2 bit for bit"
 fi
+( cd harness && cargo build --offline --release -p vp_oracle --example selftest_dump 2>/dev/null && ./target/release/examples/selftest_dump | python3 ../scripts/oracle_selftest.py )
 echo "setup: engines built"
